@@ -295,13 +295,48 @@ fn arrays_of<'a>(root: &'a mut Map<String, Value>) -> Vec<&'a mut Vec<Value>> {
 }
 
 /// One or two small edits of a document (well-formedness preserved)
+/// every tracked object of the document has its own identifier - explicit, or the one the library derives
+/// from the path of an object that carries none (C04 quantifies over documents with unique identifiers)
+pub fn ids_unique(doc: &Value) -> bool {
+    fn walk(v: &Value, tracked: bool, out: &mut Vec<String>) {
+        match v {
+            Value::Object(o) => {
+                if tracked {
+                    if let Some(Value::String(id)) = o.get("_id") {
+                        out.push(id.clone());
+                    }
+                }
+                for (k, c) in o {
+                    if k.ends_with(FLAT) {
+                        walk(c, true, out);
+                    }
+                }
+            }
+            Value::Array(a) => a.iter().for_each(|c| walk(c, tracked, out)),
+            _ => {}
+        }
+    }
+    let with_ids = crate::pure::add_ids(doc, true);
+    let mut ids = vec![];
+    walk(&with_ids, true, &mut ids);
+    let n = ids.len();
+    ids.sort();
+    ids.dedup();
+    ids.len() == n
+}
+
 pub fn mutate_doc(r: &mut Rng, doc: &Value) -> Value {
     let mut d = doc.clone();
     let n = 1 + r.below(2);
     for _ in 0..n {
         mutate_once(r, &mut d);
     }
-    d
+    // an edit that would give two objects one identifier (explicit or derived) is not submitted
+    if ids_unique(&d) {
+        d
+    } else {
+        doc.clone()
+    }
 }
 
 fn mutate_once(r: &mut Rng, d: &mut Value) {
